@@ -6,6 +6,7 @@ import (
 	"encoding/base64"
 	"fmt"
 	"net/http"
+	"reflect"
 	"strings"
 	"sync/atomic"
 	"time"
@@ -87,10 +88,29 @@ func runC13Case(rep *Report, c *c13Case, ent []byte, lines, expect, what *[]stri
 	if c.ExtraHdr != "" {
 		opts.HTTPHeader = http.Header{"X-Extra": {c.ExtraHdr}, "Cookie": {"a=b"}}
 	}
+	callerHdr := opts.HTTPHeader.Clone()
 	ctx, cancel := context.WithTimeout(context.Background(), 5*time.Second)
 	defer cancel()
 	conn, _, err := websocket.VerifDial(ctx, "ws://example.com/path?q=1", opts, bytes.NewReader(ent))
 	desc := fmt.Sprintf("%+v", *c)
+	// the caller's headers are preserved: Dial sends them, it does not write its own into the caller's map
+	if !reflect.DeepEqual(callerHdr, opts.HTTPHeader) {
+		rep.violate(Violation{Kind: "property", Shape: "caller-headers-modified", What: fmt.Sprintf("%s: DialOptions.HTTPHeader was %v before Dial and is %v after", desc, callerHdr, opts.HTTPHeader), Replay: c})
+	}
+	if c.ExtraHdr != "" {
+		// a second attempt that reuses the same header map and asks for nothing must request nothing
+		var seen2 *http.Request
+		rt2 := rtFunc(func(req *http.Request) (*http.Response, error) {
+			seen2 = req
+			return &http.Response{StatusCode: 400, Header: http.Header{}, Body: http.NoBody, Request: req}, nil
+		})
+		ctx2, cancel2 := context.WithTimeout(context.Background(), 2*time.Second)
+		websocket.Dial(ctx2, "ws://example.com/", &websocket.DialOptions{HTTPClient: &http.Client{Transport: rt2}, HTTPHeader: opts.HTTPHeader})
+		cancel2()
+		if seen2 != nil && (seen2.Header.Get("Sec-WebSocket-Protocol") != "" || seen2.Header.Get("Sec-WebSocket-Extensions") != "") {
+			rep.violate(Violation{Kind: "property", Shape: "request-carries-unrequested-offer", What: fmt.Sprintf("%s: a later Dial with the same caller headers, no subprotocols and compression disabled sent Sec-WebSocket-Protocol %q, Sec-WebSocket-Extensions %q", desc, seen2.Header.Get("Sec-WebSocket-Protocol"), seen2.Header.Get("Sec-WebSocket-Extensions")), Replay: c})
+		}
+	}
 	if conn != nil {
 		atomic.StoreInt32(&body.established, 1)
 		conn.CloseNow()
@@ -168,7 +188,7 @@ func runC13Case(rep *Report, c *c13Case, ent []byte, lines, expect, what *[]stri
 func runC13(ctx *runCtx) {
 	rep := ctx.rep
 	rep.Rule = "responses from the cross product status x Connection/Upgrade value lists x accept-key variants (correct, for another key, missing, garbage) x subprotocol value (single names, other case, lists, trailing commas, look-alikes, several header lines) x requested lists x extension header variants x client compression modes, returned by a custom RoundTripper; the request seen by the RoundTripper is inspected " +
-		"(GET, headers, version 13, key = base64 of the next 16 entropy bytes, subprotocols, extension offer per mode, Host override, caller headers, ws->http scheme); Dial must return a connection iff the response is valid. Lean model of verifyServerResponse compared. distinct = case tuple"
+		"(GET, headers, version 13, key = base64 of the next 16 entropy bytes, subprotocols, extension offer per mode, Host override, caller headers sent and the caller's header map left untouched, a later Dial reusing that map requests nothing it was not asked for, ws->http scheme); Dial must return a connection iff the response is valid. Lean model of verifyServerResponse compared. distinct = case tuple"
 	rng := newRng(ctx.seed, "c13")
 	statuses := []int{101, 101, 101, 200, 400, 426, 301}
 	conns := [][]string{{"Upgrade"}, {"upgrade"}, {"keep-alive, Upgrade"}, {"keep-alive"}, nil, {"Upgradex"}}
